@@ -87,3 +87,14 @@ func (s *SessionManager) VerifForwardToSourceNode(ctx context.Context, tunnelID,
 	return s.forwardToSourceNode(ctx, &packet.TunnelOpenRequest{TunnelID: tunnelID}, conn, netConn,
 		&TunnelWaitingState{TunnelID: tunnelID, SourceNodeID: sourceNode}, true)
 }
+
+// VerifNewListenerRigStream: as VerifNewListenerRig (C10's shim), but the source end is attached the way the
+// production path attaches it: with the connection's StreamProcessor, so that the forwarder is the iocopy
+// reader/writer adapter over the stream's reader and writer (half-close only if the transport offers it).
+func VerifNewListenerRigStream(ctx context.Context, tunnelID string, source net.Conn) *VerifListenerRig {
+	sm := &SessionManager{tunnelBridges: map[string]*TunnelBridge{}, closedTunnels: map[string]time.Time{}}
+	sp := stream.NewStreamProcessor(source, source, ctx)
+	b := NewTunnelBridge(ctx, &TunnelBridgeConfig{TunnelID: tunnelID, SourceConn: source, SourceStream: sp})
+	sm.tunnelBridges[tunnelID] = b
+	return &VerifListenerRig{L: NewCrossNodeListener(sm, 0), Bridge: b}
+}
